@@ -8,9 +8,12 @@ import (
 	"bytes"
 	"fmt"
 	"strings"
+	"unicode/utf16"
 	"unicode/utf8"
 
 	zio "github.com/DemoHn/Zn/pkg/io"
+	"github.com/DemoHn/Zn/pkg/syntax"
+	"github.com/DemoHn/Zn/pkg/syntax/zh"
 	"github.com/DemoHn/Zn/znverif/hlib"
 	"github.com/DemoHn/Zn/znverif/zsim"
 )
@@ -160,12 +163,11 @@ func runC17(t *zsim.Tape, cfg *hlib.Config) *hlib.Outcome {
 		data = append([]byte{0xEF, 0xBB, 0xBF}, data...)
 		sc.Class = "BOM+" + sc.Class
 	case 2:
-		// a second U+FEFF is an ordinary character: decoders must keep it. Not generated
-		// for whole programs, where the lexer may legitimately reject that character.
-		if sc.Target != "LoadFile.Execute" {
-			data = append([]byte{0xEF, 0xBB, 0xBF, 0xEF, 0xBB, 0xBF}, data...)
-			sc.Class = "BOM+BOM+" + sc.Class
-		}
+		// a second U+FEFF is an ordinary character: decoders must keep it. For whole programs the
+		// lexer decides what that character means; the oracle below asks the parser itself
+		// whether the decoded text (one mark removed) is a program at all.
+		data = append([]byte{0xEF, 0xBB, 0xBF, 0xEF, 0xBB, 0xBF}, data...)
+		sc.Class = "BOM+BOM+" + sc.Class
 	}
 	// corruption
 	if t.Draw(3) == 2 {
@@ -204,6 +206,38 @@ func runC17(t *zsim.Tape, cfg *hlib.Config) *hlib.Outcome {
 		if !utf8.Valid(data) {
 			sc.Corruption = c.name
 			sc.CorruptAt = pos
+		}
+	}
+	// the whole file saved in another encoding ("Unicode" of Windows editors): UTF-16 / UTF-32
+	// with their own byte-order marks — never valid UTF-8 for a non-empty text, must be rejected
+	if x := t.Draw(14); x >= 11 && len(data) > 0 && utf8.Valid(data) {
+		rs := []rune(string(data))
+		var enc []byte
+		switch x {
+		case 11:
+			enc = []byte{0xFF, 0xFE}
+			for _, u := range utf16.Encode(rs) {
+				enc = append(enc, byte(u), byte(u>>8))
+			}
+			sc.Corruption = "utf16le-with-bom"
+		case 12:
+			enc = []byte{0xFE, 0xFF}
+			for _, u := range utf16.Encode(rs) {
+				enc = append(enc, byte(u>>8), byte(u))
+			}
+			sc.Corruption = "utf16be-with-bom"
+		case 13:
+			enc = []byte{0xFF, 0xFE, 0x00, 0x00}
+			for _, r := range rs {
+				enc = append(enc, byte(r), byte(r>>8), byte(r>>16), 0)
+			}
+			sc.Corruption = "utf32le-with-bom"
+		}
+		if !utf8.Valid(enc) {
+			data, sc.CorruptAt = enc, 0
+			sc.Class = "foreign-encoding:" + sc.Class
+		} else {
+			sc.Corruption = ""
 		}
 	}
 	if sc.Block > 0 && sc.Block < 64 && len(data) > 16384 {
@@ -350,6 +384,15 @@ func runC17(t *zsim.Tape, cfg *hlib.Config) *hlib.Outcome {
 				sc.Got = strings.Join(disp, ",")
 				return fail("LoadFile:invalid-utf8-executed:"+sc.Corruption,
 					fmt.Sprintf("file is not valid UTF-8 (%s at byte %d) but LoadFile(...).Execute succeeded, displaying %v", sc.Corruption, sc.CorruptAt, disp))
+			}
+			return out
+		}
+		// what was decoded must be what gets parsed: if the parser itself refuses the decoded text
+		// (after ONE byte-order mark has been removed), nothing may have been executed
+		if _, perr := syntax.NewParser(want, zh.NewParserZH()).Compile(); perr != nil {
+			if gotErr == nil {
+				sc.Got = strings.Join(disp, ",")
+				return fail("LoadFile:altered-program-executed", fmt.Sprintf("the decoded text of the file (%s) is not a program — the parser refuses it: %s — yet LoadFile(...).Execute ran something and displayed %v: what ran is not what the file holds", sc.Class, firstLines(perr.Error(), 2), disp))
 			}
 			return out
 		}
